@@ -88,6 +88,8 @@ def judgePath (m : Mesh) (s e : Pt) (out : List String) : String :=
     | [] => false
   match out with
   | ["panic"] => "bad:panic"
+  | ["fatal"] => "bad:runner-died-or-exceeded-its-budget"
+  | ["hang"] => "bad:hang"
   | ["none"] => if connected then "bad:no-path-between-connected-interior-points" else "ok"
   | _ => match parsePtList out with
     | none => "bad:unparsable-answer"
